@@ -6,6 +6,7 @@ import (
 	"fmt"
 	"reflect"
 	"strings"
+	"time"
 
 	cedar "github.com/cedar-policy/cedar-go"
 	publicast "github.com/cedar-policy/cedar-go/ast"
@@ -383,8 +384,9 @@ func shortCircuit() *core.Family {
 
 func Check() *core.Check {
 	return &core.Check{
-		ID:    "C04",
-		Title: "Policy compilation (constant folding) never changes a policy's meaning",
+		ID:        "C04",
+		HangAfter: 120 * time.Second, // cases take at most seconds (max_case_s in the evidence); see core.Family.HangAfter
+		Title:     "Policy compilation (constant folding) never changes a policy's meaning",
 		Rule: "differential, no hand-written expectation: every enumerated policy is classified satisfied / unsatisfied / erroring through the folded path (cedar.Authorize) and the unfolded path (eval.Eval(PolicyToNode(policy.AST()))) in 6 environments that differ in exactly the facts entity-dependent nodes read; AST (DeepEqual), Cedar text and JSON compared before/after compilation; " +
 			"a case is non-trivial if, in some placement, the policy's class differs between environments (it genuinely depends on the request or the store)",
 		Assumptions: []string{"the unfolded evaluator is the reference (its own conformance to the specification is C01)"},
